@@ -202,7 +202,43 @@ def r3(run):
             if c.bb in b.live_blocks() and c.fn in ("alloc::vec::Vec::<T, A>::drain", "core::mem::take", "alloc::vec::Vec::<T, A>::pop", "alloc::vec::Vec::<T, A>::clear") \
                     and c.args and any(y[0] == "field" and y[2] == "output" for y in walk(c.arg(0))) and "xs::store::Frame" in c.fnx:
                 drains.append(run.facts.enclosing_fn(b))
-    run.ob("buffered-append|single-drain", drains == [PF], "<crate>", "the buffer is drained only by process_frame: %s" % drains, reason="buffer-drained-elsewhere")
+    WORKER = "xs::handlers::handler::EngineWorker::new"
+    run.ob("buffered-append|single-drain", len(drains) == 1 and drains[0] in (PF, WORKER), "<crate>",
+           "the buffer is drained at one place only, in process_frame or in the handler's own engine worker: %s" % drains, reason="buffer-drained-elsewhere")
+    # ... and only once the invocation is over: after the evaluation was awaited (process_frame) / after the returned pipeline
+    # was collected (worker) - a lazy pipeline runs its `.append` stages while it is collected
+    for b in run.facts.all_bodies():
+        fn = run.facts.enclosing_fn(b)
+        if fn not in (PF, WORKER):
+            continue
+        ds = [c for c in b.calls() if c.bb in b.live_blocks() and c.fn in DRAIN_FNS and c.args and any(y[0] == "field" and y[2] == "output" for y in walk(c.arg(0))) and "xs::store::Frame" in c.fnx]
+        for d in ds:
+            if fn == PF:
+                evs = [c for c in b.calls() if c.bb in b.live_blocks() and c.fn.endswith("Handler::eval_in_thread")]
+                ready = []
+                for bb, si in b.switches():
+                    if si["kind"] == "variant" and si["cond"][0] == "call" and si["cond"][1].fn.endswith("Future::poll"):
+                        u = q.unawait(("field", ("downcast", si["cond"], "Ready"), 0))
+                        if u[0] == "call" and any(q.same_call(u[1], e) for e in evs):
+                            ready += [(bb, t, lab) for (t, lab, m) in si["edges"] if m == "Ready"]
+                ok = bool(ready) and q.dominated(b, d.bb, via_edges=ready)
+            else:
+                collects = []
+                for c in b.calls():
+                    if c.bb not in b.live_blocks():
+                        continue
+                    if c.fn.endswith("PipelineData::into_value"):
+                        collects.append(c)
+                        continue
+                    for a in c.arg_exprs():
+                        a0 = strip(a)
+                        cb = run.facts.body(a0[1].get("def")) if a0[0] == "agg" and a0[1].get("def") else None
+                        if cb is not None and any(cc.fn.endswith("PipelineData::into_value") for cc in cb.calls()):
+                            collects.append(c)
+                ok = bool(collects) and q.dominated(b, d.bb, via_blocks=[c.bb for c in collects])
+            run.ob("buffered-append|drain-after-collect", ok, d.sp,
+                   "the buffer is taken only after the invocation is over (evaluation awaited / returned pipeline collected): appends made by a lazily "
+                   "evaluated pipeline stage belong to this invocation", reason="output-of-another-invocation")
     # hash through the shared CAS helper (R-C10-1 covers provenance)
     # the handler is constructed with this buffered command and the same buffer it drains
     hb = None
